@@ -499,7 +499,17 @@ def judge (ev : Ev) : List String :=
   | some realX =>
     -- an object outside the invariant (left behind by an earlier, reported event) is not replayed: the theorems do not
     -- speak about it, and conversions of garbage rows may take for ever
-    if !((match ev.preX with | some g => invB g | none => true) && (match ev.preY with | some g => invB g | none => true)) then
+    let bigG (o : Option Grid) : Bool := match o with | some g => g.spaceDim > 12 || g.conDim > 14 || g.genDim > 14 | none => false
+    if bigG ev.preX || bigG ev.preY then [s!"skip {hd} {ev.op} dimension-out-of-range"]
+    else if bigG ev.postX || bigG ev.postY then
+      -- the harness never asks for more than 5 dimensions: only the raw comparison is affordable
+      match (runModel ev).run ev.args with
+      | some (mr, _) =>
+        (match stateDiff mr.x realX with
+         | some d => [s!"MISMATCH {hd} state {ev.op} x:{d} (real dimension {realX.spaceDim})"]
+         | none => [s!"skip {hd} {ev.op} dimension-out-of-range"])
+      | none => [s!"skip {hd} {ev.op} unparsable-or-unknown"]
+    else if !((match ev.preX with | some g => invB g | none => true) && (match ev.preY with | some g => invB g | none => true)) then
       [s!"skip {hd} {ev.op} pre-state-outside-invariant"]
     else
     match (runModel ev).run ev.args with
